@@ -189,6 +189,7 @@ def repo_self(b, inline=(), extra=None, props=True, cache=True):
         node = source.class_attr(REPO_PY, 'Repository', nm)
         attrs[nm] = node.value
     me = Obj('self')
+    me._class_source = (REPO_PY, 'Repository')   # methods without a model are the real ones, inlined
     me._lenient = True        # attributes the sidecar does not know hold arbitrary state (over-approximation)
     if props:
         p, enc = make_props(b)
